@@ -476,7 +476,7 @@ func uuConst(p *Prog, name string) (int64, bool) {
 	if nil == pk {
 		return 0, false
 	}
-	c, ok := pk.Types.Scope().Lookup(name).(*types.Const)
+	c, ok := lookupObj(pk, name).(*types.Const)
 	if !ok {
 		return 0, false
 	}
